@@ -24,7 +24,7 @@ fn @name@() {
     let st = any_stress(); let tone: u16 = kani::any();
     let mut sy = syll_of(&[@segs@], st, tone);
     let alphas: RefCell<HashMap<char, Alpha>> = RefCell::new(HashMap::new());
-    let mut m = Modifiers::new();
+    let mut m = mods_new();
     m.feats[@fi@] = Some(ModKind::Binary(any_bin()));
     let r = sy.apply_seg_mods(&alphas, &m, @pos@, P);
     match r { Ok(lc) => assert!(lc == 0, "role=segmental-change-reports-length-change"), Err(_) => assert!(false, "role=unexpected-error") }
@@ -47,7 +47,7 @@ fn @name@() {
     let st = any_stress(); let tone: u16 = kani::any();
     let mut sy = syll_of(&[x, a, y], st, tone);
     let alphas: RefCell<HashMap<char, Alpha>> = RefCell::new(HashMap::new());
-    let mut m = Modifiers::new();
+    let mut m = mods_new();
     m.nodes[@ni@] = Some(ModKind::Binary(BinMod::Negative));
     let r = sy.apply_seg_mods(&alphas, &m, 1, P);
     match r { Ok(lc) => assert!(lc == 0, "role=segmental-change-reports-length-change"), Err(_) => assert!(false, "role=unexpected-error") }
@@ -119,7 +119,7 @@ fn c14_prosody_on_segment_keeps_segments() {
     kani::assume(a != x && a != y);
     let mut sy = syll_of(&[x, a, a, y], any_stress(), kani::any());
     let alphas: RefCell<HashMap<char, Alpha>> = RefCell::new(HashMap::new());
-    let mut m = Modifiers::new();
+    let mut m = mods_new();
     let k: u8 = kani::any();
     kani::assume(k < 3);
     let nt: u16 = kani::any();
@@ -141,7 +141,7 @@ fn c14_twin_reach() {
     kani::assume(a != x);
     let mut sy = syll_of(&[x, a], any_stress(), kani::any());
     let alphas: RefCell<HashMap<char, Alpha>> = RefCell::new(HashMap::new());
-    let mut m = Modifiers::new();
+    let mut m = mods_new();
     m.feats[11] = Some(ModKind::Binary(any_bin()));
     let r = sy.apply_seg_mods(&alphas, &m, 1, P);
     kani::assume(r.is_ok());
@@ -150,7 +150,7 @@ fn c14_twin_reach() {
 }
 """), functions=["Syllable::apply_seg_mods"], symbolic="-", shape="assert(false) twin", expect="fail", unwind=unwind, stubs=STUBS))
     return {
-        "harnesses": hs, "cap_s": 1500, "jobs": 12,
+        "harnesses": hs, "cap_s": 900 if tier == "quick" else 1500, "jobs": 8,
         "bounds": ["syllables of 2-4 segments, target first/middle/last; unwind %d" % unwind, "segment-only outputs: one-slot feature matrices (%d features this run), [-node] matrices, plain IPA replacement" % len(feats),
                    "prosody-only outputs: all 9 stress combinations x optional tone on the syllable; 3 combinations on a long segment"],
         "outside": ["boundary deletion/insertion and `$`-metathesis (subrule.rs:641-671, 715-745, 1043-1066, 1744-1766, 1942-1971): SubRule::transform with a symbolic position ran out of memory (27 GB) under CBMC",
